@@ -12,6 +12,8 @@ package c19
 import (
 	"fmt"
 	"math"
+	"os"
+	"strings"
 
 	"github.com/golang/geo/r1"
 	"github.com/golang/geo/s1"
@@ -86,7 +88,7 @@ func (i iv1) r1() r1.Interval { return r1.Interval{Lo: i.Lo, Hi: i.Hi} }
 func (i iv1) empty() bool     { return i.Lo > i.Hi }
 
 func genIv1(t *rapid.T, label string, val func(string) float64) iv1 {
-	switch rapid.IntRange(0, 9).Draw(t, label+".kind") {
+	switch rapid.IntRange(0, 15).Draw(t, label+".kind") {
 	case 0:
 		return iv1{1, 0} // canonical empty
 	case 1:
@@ -98,7 +100,7 @@ func genIv1(t *rapid.T, label string, val func(string) float64) iv1 {
 			return iv1{1, 0}
 		}
 		return iv1{a, b} // non-canonical empty
-	case 2:
+	case 2, 3:
 		a := val(label + ".a")
 		return iv1{a, a}
 	default:
@@ -659,7 +661,13 @@ type s1PointCase struct {
 }
 
 func genS1Point(t *rapid.T) s1PointCase {
+	rel := rapid.IntRange(0, 7).Draw(t, "mmode")
 	a := genS1(t, "a", nil)
+	if rel >= 2 && rel <= 5 && rapid.IntRange(0, 3).Draw(t, "offgrid") != 0 {
+		// the just-full / just-empty margins only exercise rounding when the
+		// endpoints are not on the (exactly representable) critical grid
+		a = s1spec{0, rapid.Float64Range(-pi, pi).Draw(t, "ulo"), rapid.Float64Range(-pi, pi).Draw(t, "uhi")}
+	}
 	ai := a.build()
 	pool := []float64{ai.Lo, ai.Hi}
 	if mp := midProbes(ai); mp != nil {
@@ -667,7 +675,6 @@ func genS1Point(t *rapid.T) s1PointCase {
 	}
 	p := angleVal(t, "p", pi, pool)
 	var m float64
-	rel := rapid.IntRange(0, 7).Draw(t, "mmode")
 	l := arcLen(ai)
 	switch rel {
 	case 0:
@@ -729,27 +736,41 @@ func checkS1Point(c s1PointCase) ev.Outcome {
 		o.Finding = "s1-constructor-invalid"
 		return o
 	}
+	return s1PointCore(a, c.P, c.M, c.Q, c.MRel)
+}
+
+// s1PointCore checks Length, Center, ComplementCenter, AddPoint(p), Project(p)
+// and Expanded(mg) of one valid interval against the circle model.
+func s1PointCore(a s1.Interval, p, mg float64, qs []float64, mrel int) ev.Outcome {
+	o := ev.Outcome{}
 	ka := kindS1(a)
 	mclass := "m>0"
-	if c.M == 0 {
+	if mg == 0 {
 		mclass = "m=0"
-	} else if c.M < 0 {
+	} else if mg < 0 {
 		mclass = "m<0"
 	}
 	o.Class = ka + "/" + mclass
-	p := c.P
-	pfx := fmt.Sprintf("s1: a=[%.17g,%.17g] p=%.17g m=%.17g: ", a.Lo, a.Hi, p, c.M)
+	pfx := fmt.Sprintf("s1: a=[%.17g,%.17g] p=%.17g m=%.17g: ", a.Lo, a.Hi, p, mg)
 	fail := func(f string, args ...any) ev.Outcome { o.Err = pfx + fmt.Sprintf(f, args...); return o }
 
 	add := a.AddPoint(p)
-	exp := a.Expanded(c.M)
+	exp := a.Expanded(mg)
 	vals := []float64{a.Lo, a.Hi, p, pi, 0, add.Lo, add.Hi, exp.Lo, exp.Hi}
-	vals = append(vals, c.Q...)
+	vals = append(vals, qs...)
 	vals = append(vals, midProbes(a)...)
-	var proj float64
+	var proj, ctr, cctr float64
 	if ka != "E" {
 		proj = a.Project(p)
 		vals = append(vals, proj)
+	}
+	if ka == "N" || ka == "I" || ka == "S" {
+		ctr, cctr = a.Center(), a.ComplementCenter()
+		if math.IsNaN(ctr) || math.Abs(ctr) > pi || math.IsNaN(cctr) || math.Abs(cctr) > pi {
+			o.Err = fmt.Sprintf("s1: a=[%.17g,%.17g]: Center()=%.17g or ComplementCenter()=%.17g is not in [-π,π]", a.Lo, a.Hi, ctr, cctr)
+			return o
+		}
+		vals = append(vals, ctr, cctr)
 	}
 	if !validS1(add) || !add.IsValid() {
 		return fail("AddPoint = [%.17g,%.17g] is not valid", add.Lo, add.Hi)
@@ -766,12 +787,29 @@ func checkS1Point(c s1PointCase) ev.Outcome {
 	pbit := bset(1) << uint(m.pos(p))
 	pin := A&pbit != 0
 	np := normPi(p)
-	o.NonTrivial = ka != "N" || math.Abs(a.Lo) == pi || math.Abs(a.Hi) == pi || math.Abs(p) == pi || np == normPi(a.Lo) || np == normPi(a.Hi) || c.MRel >= 2 && c.MRel <= 5
+	o.NonTrivial = ka != "N" || math.Abs(a.Lo) == pi || math.Abs(a.Hi) == pi || math.Abs(p) == pi || np == normPi(a.Lo) || np == normPi(a.Hi) || mrel >= 2 && mrel <= 5
 
 	// Length of a non-empty interval is documented to be non-negative.
 	if ka != "E" && a.Length() < 0 {
 		o.Finding = findingWrapLength
 		return fail("Length() = %g for a non-empty interval (exact length %.17g)", a.Length(), arcLen(a))
+	}
+	if ka != "E" {
+		if d := math.Abs(a.Length() - arcLen(a)); d > 2e-15 {
+			return fail("Length() = %.17g, exact %.17g", a.Length(), arcLen(a))
+		}
+	} else if a.Length() >= 0 {
+		return fail("Length() of the empty interval = %g, want negative", a.Length())
+	}
+	// Center / ComplementCenter are midpoints: they must lie in the interval / in its complement.
+	if ka == "N" || ka == "I" || ka == "S" {
+		if A&(bset(1)<<uint(m.pos(ctr))) == 0 {
+			return fail("Center() = %.17g is not in the interval", ctr)
+		}
+		cc := set(a.Complement())
+		if cc&(bset(1)<<uint(m.pos(cctr))) == 0 {
+			return fail("ComplementCenter() = %.17g is not in the complement", cctr)
+		}
 	}
 	// AddPoint
 	S := set(add)
@@ -833,14 +871,18 @@ func checkS1Point(c s1PointCase) ev.Outcome {
 		if ke != "F" {
 			return fail("Expanded of the full interval = [%.17g,%.17g]", exp.Lo, exp.Hi)
 		}
-	case c.M >= 0:
+	case mg >= 0:
 		if !A.subsetOf(E) {
 			if a.Length() < 0 {
 				o.Finding = findingWrapLength
+			} else if math.Abs(l+2*mg-2*pi) <= 1e-14 && ke != "F" && a.Length()+2*mg+2*2.220446049e-16 < 2*pi {
+				// (the last condition is the source's own "will be full" test: the class
+				// covers only collapses that this test, as written, lets through)
+				o.Finding = findingExpandCollapse
 			}
 			return fail("Expanded = [%.17g,%.17g] lost points of the interval", exp.Lo, exp.Hi)
 		}
-		exact := l + 2*c.M
+		exact := l + 2*mg
 		if ke == "F" {
 			if exact < 2*pi-expandFullTol {
 				return fail("Expanded is full but the expanded length is only %.17g", exact)
@@ -849,18 +891,21 @@ func checkS1Point(c s1PointCase) ev.Outcome {
 			if exact > 2*pi+expandFullTol {
 				return fail("Expanded = [%.17g,%.17g] is not full but the expanded length is %.17g", exp.Lo, exp.Hi, exact)
 			}
-			if d := circDist(normPi(exp.Lo), normAngle(a.Lo-c.M)); d > expandEndTol {
+			if d := circDist(normPi(exp.Lo), normAngle(a.Lo-mg)); endRatio(&o, d) > 1 {
 				return fail("Expanded.Lo = %.17g is %.3g away from lo−margin", exp.Lo, d)
 			}
-			if d := circDist(normPi(exp.Hi), normAngle(a.Hi+c.M)); d > expandEndTol {
+			if d := circDist(normPi(exp.Hi), normAngle(a.Hi+mg)); endRatio(&o, d) > 1 {
 				return fail("Expanded.Hi = %.17g is %.3g away from hi+margin", exp.Hi, d)
 			}
 		}
 	default: // negative margin: shrinks
 		if !E.subsetOf(A) {
+			if math.Abs(l+2*mg) <= 1e-14 && a.Length()+2*mg-2*2.220446049e-16 > 0 {
+				o.Finding = findingShrinkCross
+			}
 			return fail("Expanded (negative margin) = [%.17g,%.17g] contains points outside the interval", exp.Lo, exp.Hi)
 		}
-		exact := l + 2*c.M
+		exact := l + 2*mg
 		if ke == "E" {
 			if exact > expandFullTol {
 				return fail("Expanded is empty but the shrunk length is %.17g", exact)
@@ -869,10 +914,10 @@ func checkS1Point(c s1PointCase) ev.Outcome {
 			if exact < -expandFullTol {
 				return fail("Expanded = [%.17g,%.17g] is not empty but the shrunk length is %.17g", exp.Lo, exp.Hi, exact)
 			}
-			if d := circDist(normPi(exp.Lo), normAngle(a.Lo-c.M)); d > expandEndTol {
+			if d := circDist(normPi(exp.Lo), normAngle(a.Lo-mg)); endRatio(&o, d) > 1 {
 				return fail("Expanded.Lo = %.17g is %.3g away from lo−margin", exp.Lo, d)
 			}
-			if d := circDist(normPi(exp.Hi), normAngle(a.Hi+c.M)); d > expandEndTol {
+			if d := circDist(normPi(exp.Hi), normAngle(a.Hi+mg)); endRatio(&o, d) > 1 {
 				return fail("Expanded.Hi = %.17g is %.3g away from hi+margin", exp.Hi, d)
 			}
 		}
@@ -884,6 +929,28 @@ func checkS1Point(c s1PointCase) ev.Outcome {
 // to exactly −2π, Length() returns −1 (the "empty" marker) and Expanded builds a
 // small interval on the far side of the circle.
 const findingWrapLength = "s1-length-negative-nonempty"
+
+// findingExpandCollapse: length+2·margin is within a few ulps below 2π, the
+// "will be full" test (which allows only 2·DBL_EPSILON) says no, and the two
+// rounded endpoints meet or cross: the result is a singleton / tiny interval.
+const findingExpandCollapse = "s1-expanded-near-full-collapse"
+
+// findingShrinkCross: negative margin of about half the length; the "will be
+// empty" test (length+2·margin−2·dblEpsilon ≤ 0, with dblEpsilon truncated to
+// 2.220446049e-16 in s1) says no, and the two rounded endpoints cross: the
+// result is an inverted interval covering almost the whole circle.
+const findingShrinkCross = "s1-shrink-endpoints-cross"
+
+func endRatio(o *ev.Outcome, d float64) float64 {
+	r := d / expandEndTol
+	if o.Ratios == nil {
+		o.Ratios = map[string]float64{}
+	}
+	if r > o.Ratios["Expanded: endpoint error / 2e-15"] {
+		o.Ratios["Expanded: endpoint error / 2e-15"] = r
+	}
+	return r
+}
 
 // normAngle reduces x (|x| ≤ 3π here) to (-π,π] in float64.
 func normAngle(x float64) float64 {
@@ -937,6 +1004,19 @@ func gridValues(variant int, full bool) []float64 {
 	return out
 }
 
+// gridKnown: finding classes tolerated inside the grid enumeration (one case =
+// one whole grid, so a tolerated finding must not end the enumeration). Filled
+// from VERIF_KNOWN like the framework does.
+var gridKnown = func() map[string]bool {
+	m := map[string]bool{}
+	for _, c := range strings.Split(os.Getenv("VERIF_KNOWN"), ",") {
+		if c = strings.TrimSpace(c); c != "" {
+			m[c] = true
+		}
+	}
+	return m
+}()
+
 func genGrid(t *rapid.T) gridCase {
 	return gridCase{Variant: rapid.IntRange(0, 15).Draw(t, "variant"), Full: ev.Thorough()}
 }
@@ -967,21 +1047,36 @@ func checkGrid(c gridCase) ev.Outcome {
 			}
 		}
 	}
-	o.Counts = map[string]int{"pairs": pairs, "intervals": len(ivs)}
+	// unary operations: every interval × every grid point × a margin family
+	unary := 0
+	for _, a := range ivs {
+		l := arcLen(a)
+		for _, p := range append(append([]float64{}, vs...), -pi) {
+			for _, mg := range []float64{0, pi / 4, pi, -pi / 4, 0.5 * (2*pi - l), -0.5 * l} {
+				unary++
+				r := s1PointCore(a, p, mg, nil, 0)
+				if r.Err != "" && !(r.Finding != "" && gridKnown[r.Finding]) {
+					o.Err, o.Finding = r.Err, r.Finding
+					return o
+				}
+			}
+		}
+	}
+	o.Counts = map[string]int{"pairs": pairs, "intervals": len(ivs), "unary": unary}
 	return o
 }
 
 func init() {
 	ev.Define("r1_interval", ev.Options{
-		Rule: "pairs of r1 intervals (canonical and non-canonical empty, singleton, ordinary) with endpoints from {0,±0.5,±1,2,±π/2,±π,±1e300}±0..2 ulps, the other operand's endpoints ±0..2 ulps, ±0, denormals, uniform; up to 3 probe points; margin 0/tiny/huge/−length/2±ulps/uniform. Oracle: exact order model of the real line (values and gaps as positions): Contains, InteriorContains, ContainsInterval, InteriorContainsInterval, Intersects, InteriorIntersects, Equal as set relations; Union = hull, Intersection = common points, Expanded(m≥0) ⊇, Expanded(m≤0) ⊆, AddPoint = hull, ClampPoint = closest. Non-trivial = operands share an endpoint or one is empty/singleton.",
-		Quick: 150000, Thorough: 6000000}, genR1, checkR1)
+		Rule:  "pairs of r1 intervals (canonical and non-canonical empty, singleton, ordinary) with endpoints from {0,±0.5,±1,2,±π/2,±π,±1e300}±0..2 ulps, the other operand's endpoints ±0..2 ulps, ±0, denormals, uniform; up to 3 probe points; margin 0/tiny/huge/−length/2±ulps/uniform. Oracle: exact order model of the real line (values and gaps as positions): Contains, InteriorContains, ContainsInterval, InteriorContainsInterval, Intersects, InteriorIntersects, Equal as set relations; Union = hull, Intersection = common points, Expanded(m≥0) ⊇, Expanded(m≤0) ⊆, AddPoint = hull, ClampPoint = closest. Non-trivial = operands share an endpoint or one is empty/singleton.",
+		Quick: 150000, Thorough: 8000000}, genR1, checkR1)
 	ev.Define("s1_pair", ev.Options{
-		Rule: "pairs of s1 intervals built by IntervalFromEndpoints / IntervalFromPointPair / Empty / Full with endpoints from {0,±π/4,±π/2,±3π/4,±π}±0..2 ulps, the other operand's endpoints ±0..2 ulps (incl. the exact complement), ±0, tiny, uniform; probes: all endpoints, both representations of ±π, 0, midpoints of both arcs, up to 4 drawn. Oracle: exact order model of the circle. Checked: constructor validity, Contains/InteriorContains on every probe, ContainsInterval, InteriorContainsInterval, Intersects, InteriorIntersects (both orders) as set relations; Union ⊇ both, equal to the union when connected, else union plus the shorter gap; Intersection ⊇ common points, ⊆ union, equal when connected, else the shorter operand; Complement = complement of the interior; every result valid and made of operand endpoints. Non-trivial = an endpoint is ±π, the operands share an endpoint, or one is inverted/empty/full.",
-		Quick: 250000, Thorough: 12000000}, genS1Pair, checkS1Pair)
+		Rule:  "pairs of s1 intervals built by IntervalFromEndpoints / IntervalFromPointPair / Empty / Full with endpoints from {0,±π/4,±π/2,±3π/4,±π}±0..2 ulps, the other operand's endpoints ±0..2 ulps (incl. the exact complement), ±0, tiny, uniform; probes: all endpoints, both representations of ±π, 0, midpoints of both arcs, up to 4 drawn. Oracle: exact order model of the circle. Checked: constructor validity, Contains/InteriorContains on every probe, ContainsInterval, InteriorContainsInterval, Intersects, InteriorIntersects (both orders) as set relations; Union ⊇ both, equal to the union when connected, else union plus the shorter gap; Intersection ⊇ common points, ⊆ union, equal when connected, else the shorter operand; Complement = complement of the interior; every result valid and made of operand endpoints. Non-trivial = an endpoint is ±π, the operands share an endpoint, or one is inverted/empty/full.",
+		Quick: 400000, Thorough: 20000000}, genS1Pair, checkS1Pair)
 	ev.Define("s1_point_ops", ev.Options{
-		Rule: "one s1 interval (as above), a point p (critical grid, endpoints ±ulps, midpoint of the complement ±ulps) and a margin m in {0, tiny, π/2, π, 2π, 1e300, (2π−length)/2 ± 0..4 ulps, −length/2 ± 0..4 ulps, uniform ±4}. AddPoint ⊇ interval ∪ {p}, unchanged if p inside, bridges the shorter gap; Project ∈ interval, = p if inside, else the nearer endpoint; Expanded(m≥0) ⊇ interval, Expanded(m<0) ⊆ interval, endpoints within 2e-15 of lo−m / hi+m, full/empty decision right outside a 1e-14 band; all results valid. Non-trivial = interval empty/full/singleton/inverted, an endpoint or p at ±π, p on an endpoint, or a margin of the just-full / just-empty family.",
-		Quick: 200000, Thorough: 10000000}, genS1Point, checkS1Point)
+		Rule:  "one s1 interval (as above), a point p (critical grid, endpoints ±ulps, midpoint of the complement ±ulps) and a margin m in {0, tiny, π/2, π, 2π, 1e300, (2π−length)/2 ± 0..4 ulps, −length/2 ± 0..4 ulps, uniform ±4}. AddPoint ⊇ interval ∪ {p}, unchanged if p inside, bridges the shorter gap; Project ∈ interval, = p if inside, else the nearer endpoint; Expanded(m≥0) ⊇ interval, Expanded(m<0) ⊆ interval, endpoints within 2e-15 of lo−m / hi+m, full/empty decision right outside a 1e-14 band; all results valid. Non-trivial = interval empty/full/singleton/inverted, an endpoint or p at ±π, p on an endpoint, or a margin of the just-full / just-empty family.",
+		Quick: 400000, Thorough: 20000000}, genS1Point, checkS1Point)
 	ev.Define("s1_grid_exhaustive", ev.Options{
-		Rule: "complete enumeration: every ordered pair of s1 intervals whose endpoints lie on the critical grid {0,±π/4,±π/2,±3π/4,±π} ±0..1 ulp (quick) / ±0..2 ulps (thorough) plus three variant-dependent off-grid values, plus Empty and Full; each pair goes through the full s1_pair oracle (probes: all endpoints, ±π, 0). One case = one complete grid; counts.pairs is the number of pairs checked.",
+		Rule:  "complete enumeration: every ordered pair of s1 intervals whose endpoints lie on the critical grid {0,±π/4,±π/2,±3π/4,±π} ±0..1 ulp (quick, 27 values) / ±0..2 ulps (thorough, 43 values) plus three variant-dependent off-grid values, plus Empty and Full; each pair goes through the full s1_pair oracle (probes: all endpoints, ±π, 0); then every interval × every grid point (both ±π) × margins {0, π/4, π, −π/4, (2π−length)/2, −length/2} through the s1_point_ops oracle. One case = one complete grid; counts.pairs / counts.unary are the numbers of combinations checked.",
 		Quick: 8, Thorough: 16}, genGrid, checkGrid)
 }
